@@ -208,7 +208,7 @@ theorem pollResponse_frame (c : Cfg) (i : In) (f : Nat) (s : St) (o : List Out) 
 
 def IsErr : Msg → Prop
   | .error _ => True
-  | .item _ _ => False
+  | .item _ _ _ => False
 
 /-- what can sit in the write buffer -/
 def IsWire : Out → Prop
